@@ -2,7 +2,7 @@ CONSTANTS
   Letters = {"_", "a"}
   Marker = "_"
   Max = 6
-  PLens = {1, 3}
+  PLens = {2}
 INIT MInit
 NEXT MNext
 INVARIANTS NoCollision RoomForHash BothNamed
